@@ -226,6 +226,104 @@ func oracleC06Words(w WordCase) (o report.Outcome) {
 func TestC06Words(t *testing.T) { report.RunEnum(t, specC06Words, enumWords, oracleC06Words) }
 
 // ---------------------------------------------------------------------------------------------------------------
+// periodic words: pre + u^a + v^b + suf (runs of a short cycle followed by runs of another one, e.g. its reverse): the
+// removal ranges that kmpDeduplicate marks for such rings can overlap (finding F15), far beyond the lengths of C06Words
+
+type PeriodicCase struct {
+	Pre, U, V, Suf string
+	A, B           int
+	Keep           bool
+}
+
+var specC06Periodic = report.Spec{Property: "C06", Check: "C06Periodic", Exhaustive: true,
+	Rule: "exhaustive: all words pre + u^a + v^b + suf over 3 pixel centres in general position with u, v cyclic words of length 3 (quick) or 2-3 (thorough) without equal neighbours, a, b in 1..7 (thorough 1..9), pre in {empty, one symbol}, suf in {empty, one symbol, two different symbols}, as a one-ring polygon (keep on; thorough both); " +
+		"words with equal neighbours at a seam are skipped. Oracle as C06. Non-trivial: all (every word repeats centres).",
+	Assumptions: specC06.Assumptions}
+
+func enumPeriodic(yield func(PeriodicCase) bool) {
+	letters := []string{"A", "B", "C"}
+	var cyc []string
+	for _, x := range letters {
+		for _, y := range letters {
+			if x == y {
+				continue
+			}
+			if report.Tier() == "thorough" {
+				cyc = append(cyc, x+y)
+			}
+			for _, z := range letters {
+				if z != x && z != y {
+					cyc = append(cyc, x+y+z)
+				}
+			}
+		}
+	}
+	pres := []string{"", "A", "B", "C"}
+	sufs := []string{""}
+	for _, x := range letters {
+		sufs = append(sufs, x)
+		for _, y := range letters {
+			if x != y {
+				sufs = append(sufs, x+y)
+			}
+		}
+	}
+	maxRep, keeps := 7, []bool{true}
+	if report.Tier() == "thorough" {
+		maxRep, keeps = 9, []bool{true, false}
+	}
+	n, shard := 0, report.Shard()
+	for _, u := range cyc {
+		for _, v := range cyc {
+			for a := 1; a <= maxRep; a++ {
+				for b := 1; b <= maxRep; b++ {
+					for _, pre := range pres {
+						for _, suf := range sufs {
+							n++
+							if report.Tier() == "thorough" && n%16 != shard%16 {
+								continue
+							}
+							for _, keep := range keeps {
+								if !yield(PeriodicCase{Pre: pre, U: u, V: v, Suf: suf, A: a, B: b, Keep: keep}) {
+									return
+								}
+							}
+						}
+					}
+				}
+			}
+		}
+	}
+}
+
+func oracleC06Periodic(pc PeriodicCase) (o report.Outcome) {
+	word := pc.Pre + strings.Repeat(pc.U, pc.A) + strings.Repeat(pc.V, pc.B) + pc.Suf
+	w := make([]int, 0, len(word))
+	for i, ch := range word {
+		if i > 0 && word[i-1] == byte(ch) {
+			o.OutOfScope = true // equal neighbours at a seam: the same ring as a shorter word
+			return o
+		}
+		w = append(w, int(ch-'A'))
+	}
+	if len(w) > 1 && w[0] == w[len(w)-1] {
+		o.OutOfScope = true
+		return o
+	}
+	o.Key = fmt.Sprint(pc)
+	o.NonTrivial = true
+	res := snapTimed(specC06Periodic, wordToCase(WordCase{K: 3, Word: w, Keep: pc.Keep}))
+	if res.Panic != nil {
+		o.Failf([]string{"panic"}, "SnapPolygon panicked on the centre sequence %s (= %q + %q^%d + %q^%d + %q): %s", word, pc.Pre, pc.U, pc.A, pc.V, pc.B, pc.Suf, panicText(res))
+	}
+	return o
+}
+
+func TestC06Periodic(t *testing.T) {
+	report.RunEnum(t, specC06Periodic, enumPeriodic, oracleC06Periodic)
+}
+
+// ---------------------------------------------------------------------------------------------------------------
 // large structured inputs (sizes that the random generators do not reach); run time recorded, not judged
 
 type LargeCase struct {
